@@ -23,6 +23,12 @@ def model_arg(op):
     return py_model(op['model']) if op.get('model') is not None else None
 
 
+def fmt_kw(op, keys=('indent', 'compact')):
+    """formatting keyword arguments of the real call: a key the op omits is omitted from the call,
+    so the library's own default value is what gets compared with the model's default"""
+    return {k: op[k] for k in keys if k in op}
+
+
 def _input(op):
     return op['lines'] if op.get('lines') is not None else op['s']
 
@@ -91,7 +97,7 @@ def cli_argv(model_spec, opts, tmpdir):
         argv.append('--check')
     ind = opts.get('indent', -1)
     if ind is None:
-        argv += ['--indent', 'no']
+        argv += ['--indent', opts.get('indentSpelling', 'no')]
     elif ind != -1:
         argv += ['--indent', str(ind)]
     if opts.get('compact'):
@@ -257,9 +263,13 @@ def _run_real(op):
         return res(lambda: _parse._parse_triples(_lexer.lex(_input(op), pattern=_lexer.TRIPLE_RE)),
                    lambda ts: [j_triple(t) for t in ts])
     if name == 'format':
-        return penman.format(py_tree(op['tree']), indent=op.get('indent', -1), compact=op.get('compact', False))
+        if op.get('viaCodec'):
+            return penman.PENMANCodec().format(py_tree(op['tree']), **fmt_kw(op))
+        return penman.format(py_tree(op['tree']), **fmt_kw(op))
     if name == 'format_triples':
-        return penman.format_triples([py_triple(t) for t in op['triples']], indent=op.get('indent', True))
+        if op.get('viaCodec'):
+            return penman.PENMANCodec().format_triples([py_triple(t) for t in op['triples']], **fmt_kw(op, ('indent',)))
+        return penman.format_triples([py_triple(t) for t in op['triples']], **fmt_kw(op, ('indent',)))
     if name == 'interpret':
         return res(lambda: layout.interpret(py_tree(op['tree']), model_arg(op)), j_graph)
     if name == 'decode':
@@ -270,8 +280,9 @@ def _run_real(op):
         return res(lambda: layout.configure(g, top=op.get('top'), model=model_arg(op)), j_tree)
     if name == 'encode':
         g = py_graph(op['graph'])
-        return res(lambda: penman.encode(g, top=op.get('top'), model=py_model(op.get('model')),
-                                         indent=op.get('indent', -1), compact=op.get('compact', False)))
+        if op.get('viaCodec'):
+            return res(lambda: penman.PENMANCodec(model=model_arg(op)).encode(g, top=op.get('top'), **fmt_kw(op)))
+        return res(lambda: penman.encode(g, top=op.get('top'), model=model_arg(op), **fmt_kw(op)))
     if name == 'reconfigure':
         g = py_graph(op['graph'])
         m = py_model(op.get('model'))
@@ -336,6 +347,7 @@ def _run_real(op):
     if name == 'reify_attributes':
         return j_graph(transform.reify_attributes(py_graph(op['graph'])))
     if name == 'indicate_branches':
+        # indicate_branches has no None fallback for its model (signature: model: Model): always explicit
         return res(lambda: transform.indicate_branches(py_graph(op['graph']), py_model(op.get('model'))), j_graph)
     if name == 'graph_new':
         g = Graph([py_triple(t) for t in op['triples']], top=op.get('top'),
@@ -405,7 +417,7 @@ def _run_real(op):
             return ['?', repr(v)]
         return {'evaluate': res(ev), 'type': res(lambda: constant.type(s).value)}
     if name == 'loads':
-        m = py_model(op.get('model'))
+        m = model_arg(op)
         cont = op.get('container', 'str')
 
         def f():
@@ -426,7 +438,7 @@ def _run_real(op):
             return penman.loads(op['s'], model=m)
         return res(f, lambda gs: [j_graph(g) for g in gs])
     if name == 'dump':
-        m = py_model(op.get('model'))
+        m = model_arg(op)
         gs = [py_graph(g) for g in op['graphs']]
 
         def f():
@@ -436,18 +448,17 @@ def _run_real(op):
                 fd, path = tempfile.mkstemp(prefix='penman_dump_')
                 os.close(fd)
                 try:
-                    penman.dump(gs, path, model=m, indent=op.get('indent', -1), compact=op.get('compact', False), encoding='utf-8')
+                    penman.dump(gs, path, model=m, encoding='utf-8', **fmt_kw(op))
                     return open(path, encoding='utf-8', newline='').read()
                 finally:
                     os.remove(path)
             buf = io.StringIO()
-            penman.dump(gs, buf, model=m, indent=op.get('indent', -1), compact=op.get('compact', False))
+            penman.dump(gs, buf, model=m, **fmt_kw(op))
             return buf.getvalue()
         return res(f)
     if name == 'dumps':
-        m = py_model(op.get('model'))
-        return res(lambda: penman.dumps([py_graph(g) for g in op['graphs']], model=m, indent=op.get('indent', -1),
-                                        compact=op.get('compact', False)))
+        m = model_arg(op)
+        return res(lambda: penman.dumps([py_graph(g) for g in op['graphs']], model=m, **fmt_kw(op)))
     if name == 'main':
         return run_main(op.get('model'), op.get('opts', {}), op['inputs'])
     raise KeyError(name)
